@@ -44,6 +44,8 @@ THEOREMS = [
     "Nix.C05.ticks_replace_link",
     "Nix.C05.link_index_checked",
     "Nix.C05.ticks_link_exclusive",
+    "Nix.C05.ticks_link_exclusive_invariant",
+    "Nix.C05.ticks_link_exclusive_init",
 ]
 ASSUMPTIONS = [
     "HDF5 hard links are second names of one object (modelled: a link stores the target node's key); h5py object "
@@ -70,10 +72,14 @@ MANIFEST = {
                   "differential execution of seeded histories on real HDF5 files (2-3 blocks with equal names, every "
                   "mutation through a random path, read back through all paths, HDF5-level dumps) and an "
                   "implementation-side oracle including id-keeping block copies.",
-    "level_note": "Partial aspects: ticks/link exclusivity is proved for every dimension operation and lifted to histories "
-                  "under the stated frame condition on structural operations (they never add children to a dimension "
-                  "group); DataFrame-column links, legacy alias layout and calibration are not modelled. Trusted: Lean "
-                  "kernel, standard axioms, the correspondence harness, h5py/HDF5 hard-link semantics.",
+    "level_note": "Partial aspects: the invariant 'no range dimension has both ticks and a link' is proved to hold initially "
+                  "and to be kept (for all descriptors of the file) by set-ticks, link_data_array, remove_link and data "
+                  "writes; the lift to arbitrary histories (Nix.C05.ExclusiveInvariant, kept as a statement) also needs "
+                  "frame facts about append_*_dimension and the structural operations, which are only checked by the "
+                  "correspondence. append_effect / linked-dimension theorems assume the fresh-key condition of the graph "
+                  "(node? nextKey = none; C03's reachable_wf provides it for reachable graphs). DataFrame-column links, "
+                  "the legacy alias layout and calibration are not modelled. Trusted: Lean kernel, standard axioms, the "
+                  "correspondence harness, h5py/HDF5 hard-link semantics.",
 }
 
 DIMKIND = {RangeDimension: "dim_range", SetDimension: "dim_set", SampledDimension: "dim_sample"}
@@ -794,8 +800,8 @@ def replay_history(ctx, ops, tag):
 
 
 def correspondence(ctx):
-    n_hist = ctx.budget(14, 160)
-    steps = ctx.budget(40, 70)
+    n_hist = ctx.budget(30, 260)
+    steps = ctx.budget(45, 70)
     disagreements = []
     total = 0
     dist, errs, tags = {}, {}, {}
@@ -1439,7 +1445,7 @@ def _scene_run(ctx, rng, steps, tag):
 
 
 def oracle(ctx, broken, hints):
-    n = ctx.budget(5, 50) * (4 if broken else 1)
+    n = ctx.budget(12, 120) * (4 if broken else 1)
     steps = ctx.budget(60, 100)
     failures = []
     evals = 0
